@@ -133,6 +133,11 @@ func (c context) findVariable(name string, prefix string, global bool) (Variable
 		return Variable{}, false
 	}
 	variable, exists := c.variables[prefixedName]
+
+	// Within functions and blocks of an imported file, the global variables of that file are visible too.
+	if !exists && !global {
+		return c.findVariable(name, prefix, true)
+	}
 	return variable, exists
 }
 
